@@ -421,3 +421,79 @@ Proof.
   - eapply other_db_same_trans; [|by apply IH]. unfold flush.
     replace (d =? -1) with false by lia. by apply flush_db_other.
 Qed.
+
+(** * Locality: behaviour depends only on the selected database (C20) *)
+(** The two states show the same keys in every database satisfying [P]. *)
+Definition view_agree (P : Z -> Prop) (s1 s2 : state) : Prop :=
+  (forall d, P d -> forall k, lentry s2 d k = lentry s1 d k) /\ st_now s2 = st_now s1 /\
+  st_maxmem s2 = st_maxmem s1 /\ st_noevict s2 = st_noevict s1.
+
+Lemma same_view_agree P s1 s2 : same_view s1 s2 -> view_agree P s1 s2.
+Proof. intros (H1 & H2 & H3 & H4). repeat split; auto. Qed.
+
+Lemma view_agree_trans_view P a a' b b' :
+  same_view a a' -> same_view b b' -> view_agree P a b -> view_agree P a' b'.
+Proof.
+  intros (A1 & A2 & A3 & A4) (B1 & B2 & B3 & B4) (H1 & H2 & H3 & H4).
+  repeat split; try congruence. intros d Hd k. rewrite B1, A1. by apply H1.
+Qed.
+
+Theorem run_seq_local {R} (p : prog R) : forall (P : Z -> Prop) d s1 s2,
+  P d -> view_agree P s1 s2 -> st_maxmem s1 = 0 ->
+  snd (run_seq d p s1) = snd (run_seq d p s2) /\
+  view_agree P (fst (run_seq d p s1)) (fst (run_seq d p s2)) /\
+  st_maxmem (fst (run_seq d p s1)) = 0.
+Proof.
+  induction p as [r|ks k IH|key k IH|ks k IH|kvs k IH|key t touch k IH|key k IH|k IH|k IH|k IH|k IH];
+    intros P d s1 s2 Hd Hv Hm; cbn [run_seq].
+  - done.
+  - replace (keys_exist s2 d ks) with (keys_exist s1 d ks); [by apply IH|].
+    apply functional_extensionality. intros x. rewrite !keys_exist_lentry.
+    destruct Hv as (Hv & _). by rewrite (Hv d Hd).
+  - rewrite !get_expiry_lentry. destruct Hv as (Hl & Hr). rewrite (Hl d Hd key). apply IH; [done| |done].
+    by split.
+  - pose proof (get_values_full s1 d ks) as H1. pose proof (get_values_full s2 d ks) as H2.
+    destruct (get_values s1 d ks) as [s1' f1]. destruct (get_values s2 d ks) as [s2' f2].
+    destruct H1 as [V1 F1]. destruct H2 as [V2 F2].
+    replace f2 with f1.
+    + apply IH; [done| |].
+      * eapply view_agree_trans_view; eauto.
+      * destruct V1 as (_ & _ & -> & _). done.
+    + apply functional_extensionality. intros x. rewrite F1, F2. destruct (bool_decide _); [|done].
+      unfold live. destruct Hv as (Hv & _). by rewrite (Hv d Hd).
+  - assert (Hm2 : st_maxmem s2 = 0) by (destruct Hv as (_ & _ & -> & _); done).
+    pose proof (set_values_spec s1 d kvs Hm) as H1. pose proof (set_values_spec s2 d kvs Hm2) as H2.
+    destruct (set_values s1 d kvs) as [s1' ok1]. destruct (set_values s2 d kvs) as [s2' ok2].
+    destruct H1 as (-> & L1 & N1 & M1 & E1). destruct H2 as (-> & L2 & N2 & M2 & E2).
+    apply IH; [done| |congruence]. destruct Hv as (Hl & Hn & Hmm & He).
+    repeat split; try congruence. intros d' Hd' k'. rewrite L1, L2, (Hl d' Hd'). done.
+  - destruct (set_expiry_fields s1 d key t) as (N1 & M1 & E1).
+    destruct (set_expiry_fields s2 d key t) as (N2 & M2 & E2).
+    apply IH; [done| |congruence]. destruct Hv as (Hl & Hn & Hmm & He).
+    repeat split; try congruence.
+    intros d' Hd' k'. rewrite !set_expiry_lentry, (Hl d' Hd'), Hn.
+    destruct (decide _) as [[<- <-]|]; [|done]. by rewrite (Hl d Hd).
+  - apply IH; [done| |by rewrite delete_key_maxmem]. destruct Hv as (Hl & Hn & Hmm & He).
+    repeat split; rewrite ?delete_key_now, ?delete_key_maxmem, ?delete_key_noevict; try congruence.
+    intros d' Hd' k'. rewrite !delete_key_lentry, (Hl d' Hd'). done.
+  - destruct Hv as (Hl & Hn & Hr1 & Hr2). rewrite <- Hn. apply IH; [done| |done]. by repeat split.
+  - destruct (flush_fields s1 d) as (N1 & M1 & E1). destruct (flush_fields s2 d) as (N2 & M2 & E2).
+    apply IH; [done| |congruence]. destruct Hv as (Hl & Hn & Hmm & He).
+    repeat split; try congruence. intros d' Hd' k'. rewrite !flush_lentry, (Hl d' Hd'). done.
+  - destruct (flush_fields s1 (-1)) as (N1 & M1 & E1). destruct (flush_fields s2 (-1)) as (N2 & M2 & E2).
+    apply IH; [done| |congruence]. destruct Hv as (Hl & Hn & Hmm & He).
+    repeat split; try congruence. intros d' Hd' k'. rewrite !flush_lentry, (Hl d' Hd'). done.
+  - by apply IH.
+Qed.
+
+(** What FLUSHDB and FLUSHALL do, exactly. *)
+Lemma flushdb_exact s d : d <> -1 ->
+  (forall k, lentry (flush s d) d k = None) /\ (forall d', d' <> d -> other_db_same s (flush s d) d').
+Proof.
+  intros Hd. split.
+  - intros k. rewrite flush_lentry. rewrite bool_decide_eq_true_2 by done. by rewrite orb_true_r.
+  - intros d' Hne. unfold flush. replace (d =? -1) with false by lia. by apply flush_db_other.
+Qed.
+
+Lemma flushall_exact s : forall d k, lentry (flush s (-1)) d k = None.
+Proof. intros d k. by rewrite flush_lentry. Qed.
